@@ -6,7 +6,7 @@ queue entries, no per-ID locks and no observation entries other than observation
 replies disappear after the exchange lifetime, so memory held per peer is bounded by live work, not by history."
 
 An *observation point* is what the size accessors and the harness's own bookkeeping show at a moment when the
-connection is idle: the eight table sizes and the live work (request calls, pings and one-way writes that have
+connection is idle: the nine table sizes and the live work (request calls, pings and one-way writes that have
 not returned; live observations).  `judgePoint` checks "bounded by live work" for the tables that hold
 continuations, locks, observations and limiter entries; `judgeFinal` checks "retains nothing" after every exchange
 has ended and housekeeping has run past every deadline.
@@ -22,6 +22,9 @@ structure Sizes where
   bwS : Nat
   obs : Nat
   lim : Nat
+  /-- token → message ID of the confirmable requests that are being written (udp/client `requestMessageIDs`: what lets a response
+      acknowledge the request it answers) — a waiting message-ID continuation's companion, per-exchange state like it -/
+  rmid : Nat := 0
   deriving Repr, DecidableEq
 
 structure Live where
@@ -36,6 +39,7 @@ structure Live where
 def judgePoint (s : Sizes) (l : Live) : Option String :=
   if s.tok > l.calls + l.pings then some "bound:token-continuations"
   else if s.mid > l.calls + l.pings + l.writes then some "bound:message-id-continuations"
+  else if s.rmid > l.calls + l.writes then some "bound:request-message-ids"
   else if s.lock > 0 then some "bound:per-id-locks"
   else if s.lim > l.calls then some "bound:limiter-entries"
   else if s.obs > l.liveObs + l.calls then some "bound:observations"
@@ -45,6 +49,7 @@ def judgePoint (s : Sizes) (l : Live) : Option String :=
 def judgeFinal (s : Sizes) (l : Live) : Option String :=
   if s.tok ≠ 0 then some "leak:token-continuations"
   else if s.mid ≠ 0 then some "leak:message-id-continuations"
+  else if s.rmid ≠ 0 then some "leak:request-message-ids"
   else if s.cache ≠ 0 then some "leak:cached-replies"
   else if s.lock ≠ 0 then some "leak:per-id-locks"
   else if s.bwR ≠ 0 then some "leak:blockwise-reassembly"
@@ -65,6 +70,7 @@ def judgeLate (before after : Sizes × Live) : Option String :=
   if !(idle before.2 && idle after.2) then none
   else if after.1.tok > before.1.tok then some "late-insert:token-continuations"
   else if after.1.mid > before.1.mid then some "late-insert:message-id-continuations"
+  else if after.1.rmid > before.1.rmid then some "late-insert:request-message-ids"
   else if after.1.lock > before.1.lock then some "late-insert:per-id-locks"
   else if after.1.bwR > before.1.bwR then some "late-insert:blockwise-reassembly"
   else if after.1.bwS > before.1.bwS then some "late-insert:blockwise-send-buffers"
@@ -106,11 +112,11 @@ def judge (points : List (Sizes × Live × Bool)) (final : Sizes × Live) (marks
   match points.findSome? (fun p => judgePoint p.1 p.2.1) with
   | some c => some c
   | none =>
-    match judgeMarks (⟨0, 0, 0, 0, 0, 0, 0, 0⟩, ⟨0, 0, 0, 0⟩)
+    match judgeMarks (⟨0, 0, 0, 0, 0, 0, 0, 0, 0⟩, ⟨0, 0, 0, 0⟩)
         ((points.zip (marks ++ List.replicate points.length Mark.none)).map (fun (p, m) => (p.1, p.2.1, m))) with
     | some c => some c
     | none =>
-    match judgeLateAll (⟨0, 0, 0, 0, 0, 0, 0, 0⟩, ⟨0, 0, 0, 0⟩) points with
+    match judgeLateAll (⟨0, 0, 0, 0, 0, 0, 0, 0, 0⟩, ⟨0, 0, 0, 0⟩) points with
     | some c => some c
     | none => judgeFinal final.1 final.2
 
